@@ -202,17 +202,26 @@ def run(prog, upto=None, hooks=None) -> Result:
             c = B[ev["c"]]
             s = ev["src"]
             src = B[s["b"]].parent_node.out(s["i"])
-            c.branch(src, c.exit if ev["dst"] == "exit" else B[ev["dst"]].parent_node)
+            if ev["dst"] == "exit" and (s["b"] + s["i"]) % 2:
+                # the dedicated method and `branch(src, exit)` are documented as the same operation;
+                # which one is used is a pure function of the event
+                c.branch_exit(src)
+            else:
+                c.branch(src, c.exit if ev["dst"] == "exit" else B[ev["dst"]].parent_node)
         elif e == "func":
             holder = B[ev["m"]]
             parent = None if isinstance(holder, Module) else to_node(holder)
-            fb = holder.define_function(
-                ev["name"],
-                mk_row(ev["ins"]),
-                mk_row(ev["outs"]) if ev["outs"] is not None else None,
-                [mk_param(p) for p in ev["params"]] or None,
-                parent,
-            )
+            if isinstance(holder, Module) and ev["name"] == "main" and ev["outs"] is None and not ev["params"]:
+                # the shorthand documented as define_function("main", inputs)
+                fb = holder.define_main(mk_row(ev["ins"]))
+            else:
+                fb = holder.define_function(
+                    ev["name"],
+                    mk_row(ev["ins"]),
+                    mk_row(ev["outs"]) if ev["outs"] is not None else None,
+                    [mk_param(p) for p in ev["params"]] or None,
+                    parent,
+                )
             B[idx] = fb
             N[idx] = fb.parent_node
         elif e == "decl":
